@@ -190,6 +190,12 @@ func jsonEncode(fr *frame, sb *strings.Builder, T types.Type, v value, depth int
 			}
 			sb.WriteString(px.jsonSentinel(t))
 		case symFloat:
+			// a float that is the conversion of a symbolic integer keeps
+			// travelling as that integer's sentinel
+			if x.t.op == OpFFromS && x.t.args[0].w == 64 {
+				sb.WriteString(fr.i.px.jsonSentinel(x.t.args[0]))
+				return
+			}
 			fr.i.px.abort("unsupported", "json.Marshal of a symbolic float")
 		case symBool:
 			if fr.i.px.forkBool(x.t) {
